@@ -110,6 +110,8 @@ func evCode(ev vaxis.Event) [2]int {
 		return [2]int{e.src, e.val}
 	case vaxis.Key:
 		return [2]int{-1, int(e.Keycode) - 'a'}
+	case vaxis.Mouse:
+		return [2]int{-1, e.Col}
 	case vaxis.QuitEvent:
 		return [2]int{-2, -1}
 	}
@@ -280,9 +282,14 @@ func runCase(n int, ans bool, scripts [][]post, acts []act) (obs []obsT, rest []
 				}
 			}
 		case "type":
-			b := make([]byte, len(a.Keys))
-			for i, k := range a.Keys {
-				b[i] = byte('a' + k)
+			// every third code is typed as an SGR mouse press at column k (one event each, like a key)
+			var b []byte
+			for _, k := range a.Keys {
+				if k%3 == 2 {
+					b = append(b, fmt.Sprintf("\x1b[<0;%d;1M", k+1)...)
+				} else {
+					b = append(b, byte('a'+k))
+				}
 			}
 			fc.Inject(b)
 			sh.pendIn += len(a.Keys)
@@ -595,7 +602,47 @@ func main() {
 	}
 	cfg.Write("C10",
 		"non-trivial = a directed schedule, or a random schedule in which a blocking post blocked or a Suspend/Resume happened; every schedule ends with Close and a drain so that loss and goroutine leaks are decidable",
-		[]*hx.Stream{sched, fullq}, extra, nil)
+		[]*hx.Stream{sched, fullq}, extra, slowTerminal())
+}
+
+// slowTerminal: a terminal whose write of the DA1 query returns only after its reply has
+// been consumed by the parser (a slow or remote link).  Close and Suspend must still return:
+// the close request has to be visible to the parser before the wake-up reply arrives.
+func slowTerminal() []hx.DirectViolation {
+	var out []hx.DirectViolation
+	for _, script := range [][]string{{"close"}, {"suspend", "resume", "close"}, {"suspend", "resume", "suspend", "resume", "close"}} {
+		prof := hx.ProfileFromMask(0, 5, 10)
+		prof.NoDA1 = true
+		fc := hx.NewFakeConsole(prof)
+		fc.WriteHook = func(b []byte) {
+			if strings.Contains(string(b), "\x1b[c") {
+				fc.InjectString("\x1b[?62;22c")
+				time.Sleep(5 * time.Millisecond)
+			}
+		}
+		vx, err := vaxis.New(vaxis.Options{WithConsole: fc, NoSignals: true})
+		if err != nil {
+			out = append(out, hx.DirectViolation{Class: "slow-terminal-shutdown", Case: script, What: "New failed: " + err.Error()})
+			continue
+		}
+		for i, op := range script {
+			var ok bool
+			switch op {
+			case "close":
+				ok = hx.WithTimeout(3*time.Second, vx.Close)
+			case "suspend":
+				ok = hx.WithTimeout(3*time.Second, func() { _ = vx.Suspend() })
+			case "resume":
+				ok = hx.WithTimeout(3*time.Second, func() { _ = vx.Resume() })
+			}
+			if !ok {
+				out = append(out, hx.DirectViolation{Class: "slow-terminal-shutdown", Case: script,
+					What: fmt.Sprintf("%s (step %d) did not return within 3 s on a terminal whose DA1 reply is consumed before the query write returns", op, i)})
+				break
+			}
+		}
+	}
+	return out
 }
 
 // ---------------------------------------------------------------- race detector (thorough tier, search support only)
